@@ -202,10 +202,12 @@ structure Inv (e : Env) (s : St) : Prop where
   nonempty : ∀ (w lo hi : Nat), s.workers[w]? = some (some (lo, hi)) → lo < hi
   stage2 : ∀ b x, wsum (indC b x) s.called + osum (ind e b x) s.matchers + wsum (ind e b x) s.queue
                 = wsum (ind e b x) s.delivered
+  cursor_le : s.cursor ≤ s.end_ ∨ s.cursor = s.start0
+  closed_ok : s.closed = true → s.stopReq = true ∨ ¬ (s.cursor < s.end_)
 
 theorem inv_init (e : Env) (start end_ batch workers matchers : Nat) (c : Bool) :
     Inv e (init start end_ batch workers matchers c) := by
-  refine ⟨by simp [init], ?_, by simp [init], ?_, ?_⟩
+  refine ⟨by simp [init], ?_, by simp [init], ?_, ?_, by simp [init], by simp [init]⟩
   · intro i; simp only [init, cnt, pend_replicate_none]; omega
   · intro w lo hi h
     simp only [init, List.getElem?_replicate] at h
@@ -227,10 +229,10 @@ theorem inv_hand (e : Env) (s : St) (w : Nat) (h : Inv e s) : Inv e (step e s (.
   · rename_i hen
     simp only [handEnabled, Bool.and_eq_true, Bool.not_eq_true', decide_eq_true_eq, beq_iff_eq] at hen
     obtain ⟨⟨⟨hcl, hw⟩, hc⟩, hb⟩ := hen
-    obtain ⟨h1, h2, h3, h4, h5⟩ := h
+    obtain ⟨h1, h2, h3, h4, h5, h6, h7⟩ := h
     have hbe : s.cursor < batchEnd s ∧ batchEnd s ≤ s.end_ := by
       simp only [batchEnd]; omega
-    refine ⟨by simp only; omega, ?_, h3, ?_, h5⟩
+    refine ⟨by simp only; omega, ?_, h3, ?_, h5, by simp only; omega, by simp only [hcl]; simp⟩
     · intro i
       have := h2 i
       have hp := pend_set s.workers w none (some (s.cursor, batchEnd s)) i hw
@@ -251,8 +253,8 @@ theorem inv_hand (e : Env) (s : St) (w : Nat) (h : Inv e s) : Inv e (step e s (.
 theorem inv_deliver (e : Env) (s : St) (w lo hi k : Nat) (h : Inv e s)
     (hw : s.workers[w]? = some (some (lo, hi))) (hk1 : 1 ≤ k) (hk2 : lo + k ≤ hi) :
     Inv e (deliver e s w lo hi k) := by
-  obtain ⟨h1, h2, h3, h4, h5⟩ := h
-  refine ⟨h1, ?_, ?_, ?_, ?_⟩
+  obtain ⟨h1, h2, h3, h4, h5, h6, h7⟩ := h
+  refine ⟨h1, ?_, ?_, ?_, ?_, h6, h7⟩
   · intro i
     have := h2 i
     have hp := pend_set s.workers w (some (lo, hi)) (if lo + k < hi then some (lo + k, hi) else none) i hw
@@ -299,8 +301,8 @@ theorem inv_step (e : Env) (s : St) (op : Op) (hc : op.inContract = true) (h : I
     · rename_i hen
       simp only [growEnabled, Bool.and_eq_true, Bool.not_eq_true', decide_eq_true_eq] at hen
       obtain ⟨⟨⟨hcl, hcont⟩, hce⟩, hn⟩ := hen
-      obtain ⟨h1, h2, h3, h4, h5⟩ := h
-      refine ⟨h1, ?_, h3, h4, h5⟩
+      obtain ⟨h1, h2, h3, h4, h5, h6, h7⟩ := h
+      refine ⟨h1, ?_, h3, h4, h5, by simp only; omega, by simp only [hcl]; simp⟩
       intro i
       have := h2 i
       simp only
@@ -311,19 +313,26 @@ theorem inv_step (e : Env) (s : St) (op : Op) (hc : op.inContract = true) (h : I
       have a5 : cnt s.delivered i + pend s.workers i = 0 ∨ i < s.end_ := by omega
       omega
     · exact h
-  | stop => obtain ⟨h1, h2, h3, h4, h5⟩ := h; exact ⟨h1, h2, h3, h4, h5⟩
-  | cancel => obtain ⟨h1, h2, h3, h4, h5⟩ := h; exact ⟨h1, h2, h3, h4, h5⟩
+  | stop => obtain ⟨h1, h2, h3, h4, h5, h6, h7⟩ := h; exact ⟨h1, h2, h3, h4, h5, h6, fun _ => Or.inl rfl⟩
+  | cancel => obtain ⟨h1, h2, h3, h4, h5, h6, h7⟩ := h; exact ⟨h1, h2, h3, h4, h5, h6, fun _ => Or.inl rfl⟩
   | close =>
     simp only [step]
     split
-    · obtain ⟨h1, h2, h3, h4, h5⟩ := h; exact ⟨h1, h2, h3, h4, h5⟩
+    · rename_i hen
+      obtain ⟨h1, h2, h3, h4, h5, h6, h7⟩ := h
+      refine ⟨h1, h2, h3, h4, h5, h6, ?_⟩
+      intro _
+      simp only [closeEnabled, Bool.and_eq_true, Bool.not_eq_true', Bool.or_eq_true, decide_eq_false_iff_not] at hen
+      rcases hen.2 with hh | hh
+      · exact Or.inl hh
+      · exact Or.inr hh.2
     · exact h
   | take m =>
     simp only [step]
     split
     · rename_i x q hm hq
-      obtain ⟨h1, h2, h3, h4, h5⟩ := h
-      refine ⟨h1, h2, h3, h4, ?_⟩
+      obtain ⟨h1, h2, h3, h4, h5, h6, h7⟩ := h
+      refine ⟨h1, h2, h3, h4, ?_, h6, h7⟩
       intro b y
       have := h5 b y
       have ho := osum_set (ind e b y) s.matchers m none (some x) hm
@@ -334,8 +343,8 @@ theorem inv_step (e : Env) (s : St) (op : Op) (hc : op.inContract = true) (h : I
     simp only [step]
     split
     · rename_i i p hm
-      obtain ⟨h1, h2, h3, h4, h5⟩ := h
-      refine ⟨h1, h2, h3, h4, ?_⟩
+      obtain ⟨h1, h2, h3, h4, h5, h6, h7⟩ := h
+      refine ⟨h1, h2, h3, h4, ?_, h6, h7⟩
       intro b y
       have := h5 b y
       have ho := osum_set (ind e b y) s.matchers m (some (i, p)) none hm
@@ -364,5 +373,278 @@ theorem inv_run (e : Env) (s : St) (ops : List Op) (hc : ops.all Op.inContract =
   | cons op t ih =>
     simp only [List.all_cons, Bool.and_eq_true] at hc
     exact ih (step e s op) hc.2 (inv_step e s op hc.1 h)
+
+
+/-! ### termination scanMeasure and progress -/
+
+theorem enabled_resp (s : St) (w k : Nat) (h : enabled s (.resp w k) = true) :
+    ∃ lo hi, s.workers[w]? = some (some (lo, hi)) ∧ 1 ≤ k ∧ lo + k ≤ hi := by
+  simp only [enabled] at h
+  split at h
+  · rename_i lo hi hw; exact ⟨lo, hi, hw, by simpa using h⟩
+  · simp at h
+
+theorem enabled_take (s : St) (m : Nat) (h : enabled s (.take m) = true) :
+    ∃ x q, s.matchers[m]? = some none ∧ s.queue = x :: q := by
+  simp only [enabled] at h
+  split at h
+  · rename_i x q hm hq; exact ⟨x, q, hm, hq⟩
+  · simp at h
+
+theorem enabled_proc (s : St) (m : Nat) (h : enabled s (.proc m) = true) :
+    ∃ x, s.matchers[m]? = some (some x) := by
+  simp only [enabled] at h
+  split at h
+  · rename_i x hm; exact ⟨x, hm⟩
+  · simp at h
+
+theorem step_disabled (e : Env) (s : St) (op : Op) (hc : op.inContract = true) (h : enabled s op = false) :
+    step e s op = s := by
+  cases op with
+  | hand w => simp only [enabled] at h; simp [step, h]
+  | resp w k =>
+    simp only [enabled] at h
+    simp only [step]
+    split
+    · rename_i lo hi hw
+      simp only [hw] at h
+      have : ¬ (1 ≤ k ∧ lo + k ≤ hi) := by simpa using h
+      simp [this]
+    · rfl
+  | respRaw w k => simp [Op.inContract] at hc
+  | err w => rfl
+  | grow n => simp only [enabled] at h; simp [step, h]
+  | stop => simp [enabled] at h
+  | cancel => simp [enabled] at h
+  | close => simp only [enabled] at h; simp [step, h]
+  | take m =>
+    simp only [enabled] at h
+    simp only [step]
+    split
+    · rename_i x q hm hq; simp [hm, hq] at h
+    · rfl
+  | proc m =>
+    simp only [enabled] at h
+    simp only [step]
+    split
+    · rename_i i p hm; simp [hm] at h
+    · rfl
+
+theorem step_measure (e : Env) (s : St) (op : Op) (hc : op.inContract = true) :
+    (if enabled s op && op.isProgress then 1 else 0) + scanMeasure (step e s op)
+      ≤ scanMeasure s + 4 * ((step e s op).end_ - s.end_) ∧ s.end_ ≤ (step e s op).end_ := by
+  cases hen : enabled s op with
+  | false => rw [step_disabled e s op hc hen]; simp
+  | true =>
+    cases op with
+    | hand w =>
+      have hen' : handEnabled s w = true := hen
+      have hen2 := hen'
+      simp only [handEnabled, Bool.and_eq_true, Bool.not_eq_true', decide_eq_true_eq, beq_iff_eq] at hen2
+      obtain ⟨⟨⟨hcl, hw⟩, hc⟩, hb⟩ := hen2
+      have hr := remaining_set s.workers w none (some (s.cursor, batchEnd s)) hw
+      simp only [rem1] at hr
+      have hbe : s.cursor < batchEnd s ∧ batchEnd s ≤ s.end_ := by simp only [batchEnd]; omega
+      simp only [step, hen', if_true, scanMeasure, hcl, Op.isProgress, Bool.and_self]
+      refine ⟨?_, Nat.le_refl _⟩
+      simp only [Bool.false_eq_true, if_false]
+      omega
+    | resp w k =>
+      obtain ⟨lo, hi, hw, hk1, hk2⟩ := enabled_resp s w k hen
+      have hr := remaining_set s.workers w (some (lo, hi)) (if lo + k < hi then some (lo + k, hi) else none) hw
+      have hk : 1 ≤ k ∧ lo + k ≤ hi := ⟨hk1, hk2⟩
+      simp only [step, hw, hk, and_self, if_true, deliver, scanMeasure, List.length_append, batchOf_length, Op.isProgress, Bool.and_self]
+      refine ⟨?_, Nat.le_refl _⟩
+      by_cases hlt : lo + k < hi
+      · simp only [hlt, if_true, rem1] at hr ⊢; omega
+      · simp only [hlt, if_false, rem1] at hr ⊢; omega
+    | respRaw w k => simp [Op.inContract] at hc
+    | err w => simp [step, Op.isProgress]
+    | grow n =>
+      have hen' : growEnabled s n = true := hen
+      have hen2 := hen'
+      simp only [growEnabled, Bool.and_eq_true, Bool.not_eq_true', decide_eq_true_eq] at hen2
+      obtain ⟨⟨⟨hcl, hcont⟩, hce⟩, hn⟩ := hen2
+      simp only [step, hen', if_true, scanMeasure, Op.isProgress, Bool.and_false]
+      refine ⟨?_, by omega⟩
+      simp only [Bool.false_eq_true, if_false]
+      omega
+    | stop => cases hcl : s.closed <;> simp [step, Op.isProgress, scanMeasure, hcl]
+    | cancel => cases hcl : s.closed <;> simp [step, Op.isProgress, scanMeasure, hcl]
+    | close =>
+      have hen' : closeEnabled s = true := hen
+      have hcl : s.closed = false := by
+        have := hen'; simp only [closeEnabled, Bool.and_eq_true, Bool.not_eq_true'] at this; exact this.1
+      simp only [step, hen', if_true, scanMeasure, hcl, Op.isProgress, Bool.and_self]
+      refine ⟨?_, Nat.le_refl _⟩
+      simp only [Bool.false_eq_true, if_false, if_true]
+      omega
+    | take m =>
+      obtain ⟨x, q, hm, hq⟩ := enabled_take s m hen
+      have hb := busy_set s.matchers m none (some x) hm
+      simp only [step, hm, hq, scanMeasure, List.length_cons, Op.isProgress, Bool.and_self, if_true]
+      refine ⟨?_, Nat.le_refl _⟩
+      simp at hb
+      omega
+    | proc m =>
+      obtain ⟨x, hm⟩ := enabled_proc s m hen
+      obtain ⟨i, p⟩ := x
+      have hb := busy_set s.matchers m (some (i, p)) none hm
+      simp only [step, hm, scanMeasure, Op.isProgress, Bool.and_self, if_true]
+      refine ⟨?_, Nat.le_refl _⟩
+      simp at hb
+      omega
+
+/-- number of enabled progress steps taken along `ops` -/
+def progressCount (e : Env) : St → List Op → Nat
+  | _, [] => 0
+  | s, op :: t => (if enabled s op && op.isProgress then 1 else 0) + progressCount e (step e s op) t
+
+theorem end_mono_run (e : Env) (s : St) (ops : List Op) (hc : ops.all Op.inContract = true) :
+    s.end_ ≤ (run e s ops).end_ := by
+  induction ops generalizing s with
+  | nil => exact Nat.le_refl _
+  | cons op t ih =>
+    simp only [List.all_cons, Bool.and_eq_true] at hc
+    exact Nat.le_trans (step_measure e s op hc.1).2 (ih (step e s op) hc.2)
+
+theorem run_measure (e : Env) (s : St) (ops : List Op) (hc : ops.all Op.inContract = true) :
+    progressCount e s ops + scanMeasure (run e s ops) ≤ scanMeasure s + 4 * ((run e s ops).end_ - s.end_) := by
+  induction ops generalizing s with
+  | nil => simp [progressCount, run]
+  | cons op t ih =>
+    simp only [List.all_cons, Bool.and_eq_true] at hc
+    have h1 := step_measure e s op hc.1
+    have h2 := ih (step e s op) hc.2
+    have h3 := end_mono_run e (step e s op) t hc.2
+    simp only [progressCount]
+    show _ + scanMeasure (run e (step e s op) t) ≤ _ + 4 * ((run e (step e s op) t).end_ - s.end_)
+    omega
+
+theorem allIdle_get {α} (l : List (Option α)) (h : allIdle l = true) (m : Nat) (o : Option α)
+    (hm : l[m]? = some o) : o = none := by
+  induction l generalizing m with
+  | nil => simp at hm
+  | cons a t ih =>
+    simp only [allIdle, List.all_cons, Bool.and_eq_true] at h
+    cases m with
+    | zero => simp at hm; subst hm; cases a <;> simp_all
+    | succ m => simp at hm; exact ih (by simpa [allIdle] using h.2) m hm
+
+theorem exists_busy {α} (l : List (Option α)) (h : allIdle l = false) : ∃ (m : Nat) (x : α), l[m]? = some (some x) := by
+  induction l with
+  | nil => simp [allIdle] at h
+  | cons a t ih =>
+    cases a with
+    | some x => exact ⟨0, x, by simp⟩
+    | none =>
+      have : allIdle t = false := by simpa [allIdle] using h
+      obtain ⟨m, x, hx⟩ := ih this
+      exact ⟨m + 1, x, by simpa using hx⟩
+
+theorem idle_head {α} (l : List (Option α)) (h : allIdle l = true) (hl : 1 ≤ l.length) : l[0]? = some none := by
+  cases l with
+  | nil => simp at hl
+  | cons a t =>
+    have := allIdle_get (a :: t) h 0 a (by simp)
+    subst this; simp
+
+/-- Unless everything has finished, some progress step is enabled — or the scan is in continuous mode,
+has drained everything, and waits for the log to grow. -/
+theorem progress (e : Env) (s : St) (h : Inv e s) (hq : quiescent s = false)
+    (hw : 1 ≤ s.workers.length) (hm : 1 ≤ s.matchers.length) (hb : 0 < s.batch) :
+    (∃ op, op.isProgress = true ∧ op.inContract = true ∧ enabled s op = true) ∨
+    (s.continuous = true ∧ s.stopReq = false ∧ s.closed = false ∧ s.end_ ≤ s.cursor ∧
+      allIdle s.workers = true ∧ s.queue = [] ∧ allIdle s.matchers = true) := by
+  by_cases hmi : allIdle s.matchers = true
+  · cases hqu : s.queue with
+    | cons x q =>
+      left
+      refine ⟨.take 0, rfl, rfl, ?_⟩
+      simp [enabled, idle_head s.matchers hmi hm, hqu]
+    | nil =>
+      by_cases hwi : allIdle s.workers = true
+      · cases hcl : s.closed with
+        | true => simp [quiescent, hcl, hwi, hqu, hmi] at hq
+        | false =>
+          cases hst : s.stopReq with
+          | true => left; exact ⟨.close, rfl, rfl, by simp [enabled, closeEnabled, hcl, hst]⟩
+          | false =>
+            by_cases hce : s.cursor < s.end_
+            · left
+              refine ⟨.hand 0, rfl, rfl, ?_⟩
+              simp [enabled, handEnabled, hcl, idle_head s.workers hwi hw, hce, hb]
+            · cases hco : s.continuous with
+              | false => left; exact ⟨.close, rfl, rfl, by simp [enabled, closeEnabled, hcl, hco, hce]⟩
+              | true => right; exact ⟨rfl, rfl, rfl, by omega, hwi, rfl, hmi⟩
+      · left
+        obtain ⟨w, r, hr⟩ := exists_busy s.workers (by simpa using hwi)
+        obtain ⟨lo, hi⟩ := r
+        have := h.nonempty w lo hi hr
+        refine ⟨.resp w 1, rfl, rfl, ?_⟩
+        simp only [enabled, hr]
+        simp; omega
+  · left
+    obtain ⟨m, x, hx⟩ := exists_busy s.matchers (by simpa using hmi)
+    exact ⟨.proc m, rfl, rfl, by simp [enabled, hx]⟩
+
+
+/-! ### fields that never change, and payload counting -/
+
+theorem step_consts (e : Env) (s : St) (op : Op) :
+    (step e s op).start0 = s.start0 ∧ (step e s op).batch = s.batch ∧ (step e s op).continuous = s.continuous ∧
+    (step e s op).workers.length = s.workers.length ∧ (step e s op).matchers.length = s.matchers.length := by
+  cases op <;> simp only [step] <;> (repeat' split) <;> simp [deliver]
+
+theorem run_consts (e : Env) (s : St) (ops : List Op) :
+    (run e s ops).start0 = s.start0 ∧ (run e s ops).batch = s.batch ∧ (run e s ops).continuous = s.continuous ∧
+    (run e s ops).workers.length = s.workers.length ∧ (run e s ops).matchers.length = s.matchers.length := by
+  induction ops generalizing s with
+  | nil => exact ⟨rfl, rfl, rfl, rfl, rfl⟩
+  | cons op t ih =>
+    have h1 := ih (step e s op)
+    have h2 := step_consts e s op
+    show (run e (step e s op) t).start0 = _ ∧ (run e (step e s op) t).batch = _ ∧ (run e (step e s op) t).continuous = _ ∧
+      (run e (step e s op) t).workers.length = _ ∧ (run e (step e s op) t).matchers.length = _
+    refine ⟨?_, ?_, ?_, ?_, ?_⟩ <;> simp [h1, h2]
+
+/-- without continuous mode the end of the range never moves -/
+theorem run_end_fixed (e : Env) (s : St) (ops : List Op) (hc : s.continuous = false) : (run e s ops).end_ = s.end_ := by
+  induction ops generalizing s with
+  | nil => rfl
+  | cons op t ih =>
+    show (run e (step e s op) t).end_ = s.end_
+    rw [ih (step e s op) (by rw [(step_consts e s op).2.2.1]; exact hc)]
+    cases op <;> simp only [step] <;> (repeat' split) <;> simp_all [deliver, growEnabled]
+
+/-- occurrences of the exact pair `(i, p)` among entries whose payload is the server's: one per occurrence of
+the index when `p` is the server's entry, none otherwise -/
+theorem wsum_pair (src : Nat → Nat) (l : List Entry) (hp : ∀ x ∈ l, x.2 = src x.1) (i p : Nat) :
+    wsum (fun y => if y = (i, p) then 1 else 0) l = if p = src i then cnt l i else 0 := by
+  induction l with
+  | nil => simp [wsum, cnt]
+  | cons a t ih =>
+    obtain ⟨j, q⟩ := a
+    have hq : q = src j := hp (j, q) (by simp)
+    have iht := ih (fun x hx => hp x (by simp [hx]))
+    simp only [wsum, cnt, iht]
+    by_cases hj : j = i
+    · subst hj
+      by_cases hpq : p = src j
+      · subst hpq; simp [hq]
+      · have : ¬ ((j, q) = (j, p)) := by intro hh; simp at hh; rw [hq] at hh; exact hpq hh.symm
+        simp [this, hpq]
+    · have : ¬ ((j, q) = (i, p)) := by intro hh; simp at hh; exact hj hh.1
+      simp [this, hj]
+
+theorem wsum_ind (e : Env) (b : Bool) (i p : Nat) (l : List Entry) :
+    wsum (ind e b (i, p)) l = if e.cls i p = some b then wsum (fun y => if y = (i, p) then 1 else 0) l else 0 := by
+  induction l with
+  | nil => simp [wsum]
+  | cons a t ih =>
+    simp only [wsum, ih, ind]
+    by_cases ha : a = (i, p)
+    · subst ha; by_cases hc : e.cls i p = some b <;> simp [hc]
+    · by_cases hc : e.cls i p = some b <;> simp [hc, ha]
 
 end CTV.Model.Scan
